@@ -3,6 +3,7 @@
 import json, subprocess
 
 HOOK_COMMITS = ["e053b92", "db39081", "909497b", "a3ef4cc"]
+FIX_COMMITS = ["d1834d6", "696a10e", "54f6b98", "8cadbec", "1d570ec", "ada398b", "3cdf850", "86f4ed9", "cac2ae1", "749f9e1", "6852bbb"]
 
 NOTE_COMMON = ("trusted base: tokio current-thread scheduler + paused clock, the simnet link, the refproto reference codec/model; "
                "interleavings explored at task-poll granularity on one thread; a clean batch is evidence, not proof")
@@ -18,6 +19,14 @@ CHECKS = {
             "deterministic simulation; exhaustive enumeration of transport cut points x fault kinds, seeded schedules per point"),
     "C11": ("fault_enumeration", "§4 C11", "position enumeration: channel type (raw port, base, remote mpsc with 1-3 senders) x event (all senders dropped, receiver close, receiver drop) x position 0..6 in a stream of 6 messages x inside/outside a message, each under N seeded schedules; oracle = received == completed sends (close / sender drop) or prefix (receiver drop), end-of-stream only after everything, error classification (Closed gracefully / not gracefully, mpsc closed_reason Closed/Dropped), Sending handles acknowledged exactly the received values",
             "deterministic simulation; exhaustive enumeration of event positions, seeded schedules, reference = completed sends"),
+    "C12": ("exploration", "§4 C12", "served counter/register object under every server flavour (Server, ServerRefMut, ServerShared(Mut) spawn on/off, ReqReceiver, by-value) and RFn/RFnMut/RFnOnce; 1-4 clients (clones, remote, two links), <= 14 calls with unique ids; oracle = exactly-one outcome per call checked against the callee's execution log (no foreign/duplicate/wrong-argument execution, Ok(r) => one completed execution with result r, error => at most one), &mut executions never overlap, Wing-Gong linearizability search of the client history against a sequential counter; link-cut sub-batch; self-test with a deliberately non-atomic served object",
+            "deterministic simulation + fault injection; execution-log oracle and linearizability checker over invoke/return histories"),
+    "C15": ("exploration", "§4 C15", "watch channels over chains of 2-4 endpoints; <= 20 strictly increasing values; receivers cloned/subscribed/sent onward 1-3 hops while updates are in flight, sender half moved and used remotely, sender dropped right after a send; oracle = observed values were sent and never decrease per receiver lineage, at quiescence every live receiver on a healthy path shows the last value sent, closure reported only after that value was visible",
+            "deterministic simulation + fault injection; monotonicity and convergence-at-quiescence oracle"),
+    "C16": ("exploration", "§4 C16", "one broadcast sender, 1-4 subscribers local / 1-2 hops away with send_buffer 1-3 and RECEIVE_BUFFER 1-2, lock-step/eager/slow/stalled readers, joins and leaves, one subscriber behind a cut link; oracle = Ok values increasing, Lagged between Ok(a), Ok(b) iff b != a+1, lock-step and roomy subscribers see everything, send synchronous and unaffected by failed subscribers",
+            "deterministic simulation + fault injection; per-subscriber sequence oracle (lag marker iff gap)"),
+    "C19": ("exploration", "§4 C19", "rtc servers with cancellable and #[no_cancel] gated methods; call futures dropped after 0-12 polls or a virtual delay, callers losing or stalling their link, undecodable arguments, methods unknown to the server, oversize replies, concurrent well-behaved clients; oracle = abandoned cancellable executions never pass their gate, no_cancel executions complete, the lock is released (fresh &mut call served), every unrelated call succeeds, serve() keeps running and ends Ok (or with the deferred reply error) when clients are gone",
+            "deterministic simulation + fault injection (cancellation at drawn polls, link cut/stall); execution-log oracle"),
     "C03": ("exploration", "§4 C03", "same runs as C01 plus stalled-receiver runs; oracle = no send/connect pending at quiescence while the receiver consumed everything, credit-conservation probe, zero-cost frame flood detector",
             "deterministic simulation; quiescence-based bounded liveness oracle + credit conservation probe"),
 }
